@@ -3,6 +3,7 @@ from spec.api import contract, implies, iff, ite, as_set, set_remove, set_union,
 from spec.terms import (fv, is_variable, abstract, abstract_ok, ty_of, wt, weak_wt, inst_bound, bool_ty,
                         is_app, is_fun_ty)
 from kernel.term import Comb
+from spec.subst import subst_type_spec, subst_spec
 from spec.thm import mk_implies, mk_eq, mk_lambda, mk_forall, is_imp, is_eq, is_all, lhs_of, rhs_of
 
 
@@ -170,6 +171,20 @@ class forall_elim:
         return is_all(th.prop) and th.prop.arg.is_abs() and th.prop.arg.var_T == ty_of(s, []) and \
             weak_wt(s, []) and \
             result.prop == inst_bound(th.prop.arg.body, 0, s) and as_set(result.hyps) == as_set(th.hyps)
+
+
+@contract("kernel.thm.Thm.subst_type")
+class subst_type_rule:
+    params = {'tyinst': 'map[str,Type]', 'th': 'Thm'}
+    returns = 'Thm'
+    ghost = {'h': 'Term'}
+
+    def ensures_prop(tyinst, th, result):
+        return result.prop == subst_type_spec(th.prop, tyinst)
+
+    def ensures_hyps(tyinst, th, h, result):
+        # every instantiated hypothesis is kept (dropping one would be unsound)
+        return implies(member(h, th.hyps), member(subst_type_spec(h, tyinst), result.hyps))
 
 
 @contract("kernel.thm.Thm.can_prove")
